@@ -399,6 +399,8 @@ class Site(object):
         h = case["host"].lower()
         if case["hc"] in ("foreign", "foreign-dotless"):
             return case["hc"]
+        if case["hc"] == "l-prefixed":
+            return "l-prefixed" if h.startswith("l.") else "l-lookalike"
         if not want and pred in ("is_shortened_url", "should_resolve") and member(h, self.tab.sh if pred == "is_shortened_url" else self.tab.sr):
             return "homepage-of-listed-host"
         if pred in REGEX_SITES:
